@@ -214,6 +214,24 @@ theorem norm_escape_spelling_lc (puny : Str → Str) (o : Normalize.Opts)
   have h2 := normParts_congr_query_lc keeps_empty puny o hts hp p q' p.query (by rw [hq])
   simpa using h2
 
+/-- **… and under `lowercase` the case of what the escapes hide is irrelevant too**: path, query and
+fragment enter the result through their unescaped **and case-folded** forms only, so `/%41`, `/%61`,
+`/A` and `/a` are one path under `lowercase` (D25 / e39f899: the folding comes right after the
+unescaping, before the case-sensitive steps).  With `lowercase` off this is `norm_escape_spelling_lc`. -/
+theorem norm_escape_fold_lc (puny : Str → Str) (o : Normalize.Opts)
+    (hts : o.stripTrailingSlash = true) (hp : Bool) (p : Parsed) (path' q' f' : Str)
+    (hpath : lcStr o (unquotePath path') = lcStr o (unquotePath p.path))
+    (hq : (seenItems o.fixCommonMistakes (decoded q')).map (lcItem o) =
+      (seenItems o.fixCommonMistakes (decoded p.query)).map (lcItem o))
+    (hf : lcStr o (unquoteFragment f') = lcStr o (unquoteFragment p.fragment)) :
+    normParts puny o hp { p with path := path', query := q', fragment := f' } = normParts puny o hp p := by
+  have h1 : normParts puny o hp { p with path := path', query := q', fragment := f' } =
+      normParts puny o hp { p with query := q' } := by
+    simp only [normParts_eq, normPath, pathSteps_eq_tail, fragStep_eq_lc, hpath, hf]
+  rw [h1]
+  have h2 := normParts_congr_query_lc keeps_empty puny o hts hp p q' p.query (by rw [hq])
+  simpa using h2
+
 /-- the theorems of `Props/C04.lean` are the `lowercase = false` instances: e.g. -/
 example (puny : Str → Str) (o : Normalize.Opts) (hl : o.lowercase = false) (hts : o.stripTrailingSlash = true)
     (hp : Bool) (p : Parsed) (q q' : Str) (a : QItem) (L1 L2 : List QItem) (x : QItem)
@@ -485,5 +503,17 @@ theorem partsG_escape_spelling (puny : Str → Str) (o : Normalize.Opts)
   refine partsG_congr puny o g _ rfl rfl ?_
   intro po
   exact norm_escape_spelling_lc puny o hts _ (g.record po) path' (Q'.getD []) (F'.getD []) hpath hq hf
+
+/-- spelling **and case** of what the escapes hide, under `lowercase` (`norm_escape_fold_lc`) -/
+theorem partsG_escape_fold (puny : Str → Str) (o : Normalize.Opts)
+    (hts : o.stripTrailingSlash = true) (g : UrlG) (path' : Str) (Q' F' : Option Str)
+    (hpath : lcStr o (unquotePath path') = lcStr o (unquotePath g.path))
+    (hq : (seenItems o.fixCommonMistakes (decoded (Q'.getD []))).map (lcItem o) =
+      (seenItems o.fixCommonMistakes (decoded (g.query.getD []))).map (lcItem o))
+    (hf : lcStr o (unquoteFragment (F'.getD [])) = lcStr o (unquoteFragment (g.fragment.getD []))) :
+    partsG puny o ({ g with path := path', query := Q', fragment := F' } : UrlG) = partsG puny o g := by
+  refine partsG_congr puny o g _ rfl rfl ?_
+  intro po
+  exact norm_escape_fold_lc puny o hts _ (g.record po) path' (Q'.getD []) (F'.getD []) hpath hq hf
 
 end Ural.Props.C04
